@@ -41,6 +41,9 @@ pub enum Ev {
     Reset,
     /// Reset storm: reset() called n times in a row (compact form; n up to 70000).
     Resets { n: u32 },
+    /// Soak loop: the k events before this one are executed n more times (nested repeats are
+    /// skipped). Leaks and counters need many rounds of the same short cycle.
+    Repeat { k: u8, n: u16 },
     /// Copy-semantics check: a copy runs in lockstep for k events; another copy is fed `burst`
     /// at once while the original must stay unchanged.
     Fork { k: u8, burst: Vec<[u8; 3]> },
@@ -93,6 +96,7 @@ impl Ev {
             Ev::Adv { ns } => J::arr([J::s("adv"), J::Str(ns.to_string())]),
             Ev::Reset => J::arr([J::s("reset")]),
             Ev::Resets { n } => J::arr([J::s("resets"), ji(*n)]),
+            Ev::Repeat { k, n } => J::arr([J::s("repeat"), ji(*k), ji(*n)]),
             Ev::Snapshot => J::arr([J::s("snapshot")]),
             Ev::Restore => J::arr([J::s("restore")]),
             Ev::Fork { k, burst } => J::arr([
@@ -150,6 +154,7 @@ impl Ev {
             }
             "reset" => Ev::Reset,
             "resets" => Ev::Resets { n: n(1, 70000)? as u32 },
+            "repeat" => Ev::Repeat { k: n(1, 16)? as u8, n: n(2, 2000)? as u16 },
             "snapshot" => Ev::Snapshot,
             "restore" => Ev::Restore,
             "fork" => {
@@ -241,6 +246,11 @@ impl Trace {
                 Ev::Reset => h.b(7),
                 Ev::Resets { n } => {
                     h.b(11);
+                    h.u64(*n as u64);
+                }
+                Ev::Repeat { k, n } => {
+                    h.b(12);
+                    h.b(*k);
                     h.u64(*n as u64);
                 }
                 Ev::Snapshot => h.b(9),
